@@ -997,7 +997,7 @@ def k_placeholder_algebra(E, tier):
     E.load_enum("css/selectors/opt.rs", "Opt", "opt::Opt")
     f_pos = E.find(name_re=r"^opt::<impl at .*>::collect_pos$")
     rec = Rec("Opt::collect_pos / collect_neg, no_placeholder of SelectorSet / Selector / CompoundSelector / Pseudo, css::Rule::write", f_pos, E)
-    K = 3
+    K = 3 if tier == "quick" else 6
     F_COMP = _struct_fields(E, "css/selectors/compound.rs", "CompoundSelector")
     F_PSEUDO = _struct_fields(E, "css/selectors/pseudo.rs", "Pseudo")
     F_SEL = _struct_fields(E, "css/selectors/selector.rs", "Selector")
@@ -1041,7 +1041,7 @@ def k_placeholder_algebra(E, tier):
         ex.unroll = K + 2
         paths = [p for p in ex.run(f, [sym.Opaque("impl Iterator", "elements", ctx)]) if p.status == "return"]
         rec.paths += len(paths)
-        if len(paths) < 10:
+        if len(paths) < 2 ** (K + 1):
             _inconclusive(rec, "%s explores its element sequences" % fname)
             continue
         bad = []
@@ -1506,7 +1506,7 @@ def _k_cli(C, tier):
         if need not in idx:
             raise sym.Unsupported("Args has no field %s" % need)
 
-    K = 2
+    K = 2 if tier == "quick" else 4
     for with_path in (True, False):
         ctx = C.ctx()
         args = sym.Opaque("Args", "args", ctx)
